@@ -1338,10 +1338,16 @@ condexpr(struct scope *s)
 		}
 	}
 	e = eval(e);
-	if (e->kind == EXPRCONST && e->type->prop & PROPINT)
-		return exprconvert(e->u.constant.u ? l : r, t);
-	if (e->kind == EXPRCONST && e->type->prop & PROPFLOAT)
-		return exprconvert(e->u.constant.f != 0 ? l : r, t);
+	if (e->kind == EXPRCONST && e->type->prop & (PROPINT|PROPFLOAT)) {
+		if (e->type->prop & PROPINT)
+			e = exprconvert(e->u.constant.u ? l : r, t);
+		else
+			e = exprconvert(e->u.constant.f != 0 ? l : r, t);
+		/* the result of a conditional expression is not an lvalue */
+		e->lvalue = false;
+		e->qual = QUALNONE;
+		return e;
+	}
 	e = mkexpr(EXPRCOND, t, e);
 	e->u.cond.t = l;
 	e->u.cond.f = r;
